@@ -17,6 +17,6 @@ LoneTime == (Len(sc.xs) = 1 /\ sc.xs[1].c = 0 /\ sc.P > 0) =>
 ZeroTakesNoTime == \A i \in 1..Len(sc.xs) : (sc.xs[i].v = 0 /\ Out.st[i] = "done") => Out.end[i] = R(sc.xs[i].s)
 \* never faster than its own limit
 NotFasterThanLimit == \A i \in 1..Len(sc.xs) :
-   (Out.st[i] = "done" /\ Limit(sc.P, sc.xs[i]) > 0) => Leq(Add(R(sc.xs[i].s), Norm(sc.xs[i].v, Limit(sc.P, sc.xs[i]))), Out.end[i])
+   (Out.st[i] = "done" /\ Limit(sc.P, sc.xs[i]) > 0 /\ ~IsHuge(sc.xs[i])) => Leq(Add(R(sc.xs[i].s), Norm(sc.xs[i].v, Limit(sc.P, sc.xs[i]))), Out.end[i])
 Emit == PrintT(<<"W", ToJson(sc)>>)
 =============================================================================
